@@ -60,36 +60,10 @@ def run(ctx):
     hp_trace, fr_trace = os.path.join(T, "hp.ndjson"), os.path.join(T, "fr.ndjson")
     d_hp = pool.submit(vlib.run_driver, ctx, binary, ["-mode", "hpack", "-cases", hp_cases, "-trace", hp_trace], 900)
     d_fr = pool.submit(vlib.run_driver, ctx, binary, ["-mode", "frames", "-cases", fr_cases, "-trace", fr_trace], 1500)
-
-    # flow: a VERIF_SEED sample of the enumerated schedules per shard (direction x unit size x body mode)
-    rng = random.Random(ctx.seed)
-    allflow = [l for l in open(fl_cases) if l.strip()]
-    per = 2000 if q else 12000
-    shards = []
-    variants = [("srv", 1, False), ("cli", 1, False), ("srv", 8192, False), ("cli", 8192, False),
-                ("srv", 7, True), ("cli", 7, True), ("srv", 8192, True), ("cli", 8192, True)]
-    for i, (d, scale, us) in enumerate(variants):
-        pick = rng.sample(allflow, min(per, len(allflow)))
-        cp = os.path.join(T, "fl_cases_%d.jsonl" % i)
-        with open(cp, "w") as fh:
-            fh.writelines(pick)
-        tp = os.path.join(T, "fl_%d.ndjson" % i)
-        sd = os.path.join(T, "mosn-%d" % i)
-        os.makedirs(sd, exist_ok=True)
-        args = ["-mode", "flow", "-dir", d, "-scale", str(scale), "-cases", cp, "-trace", tp, "-tmp", sd]
-        if us:
-            args.append("-usestream")
-        shards.append(dict(dir=d, scale=scale, usestream=us, trace=tp, ncases=len(pick),
-                           job=pool.submit(vlib.run_driver, ctx, binary, args, 1500)))
-
-    # ---------- 3. TLC decides
     d_hp.result()
     v_hp = pool.submit(vlib.validate_trace, ctx, "wire", "HpackTrace", "HpackTrace.cfg", hp_trace, 1500)
     d_fr.result()
     v_fr = pool.submit(vlib.validate_trace, ctx, "wire", "H2FramesTrace", "H2FramesTrace.cfg", fr_trace, 1500)
-    for s in shards:
-        s["job"].result()
-        s["val"] = pool.submit(vlib.validate_trace, ctx, "wire", "H2FlowTrace", "H2FlowTrace.cfg", s["trace"], 1500)
 
     def settle(part, v, evs):
         ctx.cov["states"] += v["distinct"]
@@ -139,9 +113,51 @@ def run(ctx):
             vlib.report_failure(ctx, "C18:frames:%s:%s" % (kind, frames_class(ev)), dict(line=line, event=ev))
     hard_reject(ctx, "frames", v_fr.result(), evs)
 
+    # flow: a VERIF_SEED sample of the enumerated schedules per shard (direction x unit size x body mode).
+    # A frame reader that never returns would hang the in-process MOSN (and grow without bound): the flow part needs
+    # a reader that terminates, so it is skipped when the frames part has just shown that it does not.
+    if any(v["signature"].startswith("C18:frames:reader-never-returns") for v in ctx.violations + ctx.known_hits):
+        ctx.notes.append("flow part skipped: MFramer.ReadFrame does not terminate on some valid input (see the frames verdict)")
+        ctx.cov["distinct_nontrivial"] = ctx.cov["evaluations"]
+        finish_cov(ctx, q, 0, 0)
+        return
+    rng = random.Random(ctx.seed)
+    allflow = [l for l in open(fl_cases) if l.strip()]
+    per = 2000 if q else 12000
+    shards = []
+    variants = [("srv", 1, False), ("cli", 1, False), ("srv", 8192, False), ("cli", 8192, False),
+                ("srv", 7, True), ("cli", 7, True), ("srv", 8192, True), ("cli", 8192, True)]
+    for i, (d, scale, us) in enumerate(variants):
+        pick = rng.sample(allflow, min(per, len(allflow)))
+        cp = os.path.join(T, "fl_cases_%d.jsonl" % i)
+        with open(cp, "w") as fh:
+            fh.writelines(pick)
+        tp = os.path.join(T, "fl_%d.ndjson" % i)
+        sd = os.path.join(T, "mosn-%d" % i)
+        os.makedirs(sd, exist_ok=True)
+        args = ["-mode", "flow", "-dir", d, "-scale", str(scale), "-cases", cp, "-trace", tp, "-tmp", sd]
+        if us:
+            args.append("-usestream")
+        shards.append(dict(dir=d, scale=scale, usestream=us, trace=tp, ncases=len(pick),
+                           job=pool.submit(vlib.run_driver, ctx, binary, args, 1500)))
+    died = []
+    for s in shards:
+        try:
+            s["job"].result()
+        except vlib.Inconclusive as e:
+            # what the peer recorded before the driver gave up still counts; without any evidence the run is inconclusive
+            s["died"] = str(e)[:600]
+            died.append(s)
+        sanitize(s["trace"])
+        s["val"] = pool.submit(vlib.validate_trace, ctx, "wire", "H2FlowTrace", "H2FlowTrace.cfg", s["trace"], 1500) \
+            if os.path.exists(s["trace"]) and os.path.getsize(s["trace"]) > 0 else None
+
     # flow
     ncase = nflow = 0
+    busy = []
     for s in shards:
+        if s["val"] is None:
+            continue
         evs = vlib.read_jsonl(s["trace"])
         v = s["val"].result()
         mm = settle("flow", v, evs)
@@ -157,7 +173,8 @@ def run(ctx):
             ev = evs[line - 1]
             for kind in sorted(kinds):
                 if kind == "harness-settings-while-sender-busy":
-                    raise vlib.Inconclusive("the peer changed SETTINGS while the sender was busy (driver error): line %d" % line)
+                    busy.append("%s line %d: %s" % (tag, line, json.dumps(evs[max(0, line - 10):line])[:1500]))
+                    continue
                 extra = ""
                 if kind == "header-block-rejected":
                     extra = ":" + str(ev.get("why"))
@@ -166,27 +183,54 @@ def run(ctx):
                 vlib.report_failure(ctx, "C18:flow:%s:%s%s" % (s["dir"], kind, extra),
                                     dict(variant=tag, line=line, event=ev, context=evs[max(0, line - 14):line + 2]))
         hard_reject(ctx, "flow:" + s["dir"], v, evs)
-        if nq == 0 and not mm:
+        if nq == 0 and not mm and not s.get("died"):
             raise vlib.Inconclusive("flow shard %s completed no case" % tag)
+    if busy and not ctx.violations:
+        raise vlib.Inconclusive("the peer changed SETTINGS while the sender was busy (driver error): %s" % busy[0])
+    if died and not ctx.violations:
+        raise vlib.Inconclusive("flow driver died: %s" % died[0]["died"])
+    for s in died:
+        ctx.notes.append("flow driver gave up early (%s/unit=%d): %s" % (s["dir"], s["scale"], s["died"][:200]))
     ctx.cov["traces_validated_against_impl"] += ncase
     ctx.cov["evaluations"] += nflow
     ctx.cov["distinct_nontrivial"] = ctx.cov["evaluations"]
+    finish_cov(ctx, q, per, len(allflow))
+
+
+def finish_cov(ctx, q, per, nall):
     ctx.cov["exhaustive"] = False
     ctx.cov["rule"] = ("hpack: every history of <=%d operations (field from 8 shapes incl. static full/name match, repeated name, "
-                       "sensitive, long huffman value | SETTINGS_HEADER_TABLE_SIZE in {0,40,80,4096} | end of block), both "
+                       "sensitive, long huffman value | SETTINGS_HEADER_TABLE_SIZE in {0,36,73,4096}: exact fits of one and two entries | end of block), both "
                        "directions MOSN<->x/net, one evaluation per header block (exhaustive); frames: every sequence of <=%d units "
-                       "(HEADERS x padding x priority x 0..3 CONTINUATION, DATA x padding x length, SETTINGS, WINDOW_UPDATE, PING, "
+                       "(HEADERS x padding x priority x 0..3 (thorough 0..4) CONTINUATION, DATA x padding x length, SETTINGS, WINDOW_UPDATE, PING, "
                        "RST_STREAM, PRIORITY, GOAWAY) written by x/net and read by MFramer whole, cut at every byte offset, and "
                        "byte-wise (exhaustive; one evaluation per read-back); flow: per variant (direction x unit 1|7|8192 bytes x "
                        "buffered|streamed body) a VERIF_SEED sample of %d of the %d schedules TLC enumerated (2 streams, bodies, "
                        "initial windows, connection window, <=%d peer operations WU/WUconn/SETTINGS), one evaluation per DATA frame / "
-                       "sync point / header block / end of case" % (5 if q else 6, 2 if q else 3, per, len(allflow), 3 if q else 4))
+                       "sync point / header block / end of case" % (5 if q else 6, 2, per, nall, 3 if q else 4))
     ctx.assumptions += ["the peer changes SETTINGS only while the sender is quiet (a DATA frame taken under the old value may "
                         "legitimately follow the acknowledgement otherwise); WINDOW_UPDATEs arrive at any time",
                         "clear-text HTTP/2 with prior knowledge on both sides of MOSN; x/net v0.23.0 is the reference peer",
                         "MOSN never sends frames larger than 16384 bytes, so a larger SETTINGS_MAX_FRAME_SIZE is never binding",
-                        "a sender that has not moved %d s after the window opened is judged stalled" % 20,
+                        "a sender that has not moved %d s after the window opened is judged stalled" % 25,
                         "Huffman coding is covered through the round trips only"]
+
+
+
+def sanitize(path):
+    """A driver that was killed may leave a torn last line: keep the complete events only."""
+    if not os.path.exists(path):
+        return
+    good = []
+    with open(path, errors="replace") as fh:
+        for line in fh:
+            try:
+                json.loads(line)
+            except Exception:
+                break
+            good.append(line if line.endswith("\n") else line + "\n")
+    with open(path, "w") as fh:
+        fh.writelines(good)
 
 
 def hard_reject(ctx, part, v, evs):
